@@ -1,7 +1,7 @@
 (* C08 (record level): a coverage row bins each valid window by the multiplicity of its canonical k-mer. *)
 From Coq Require Import NArith ZArith List.
 From KT Require Import Gen.Generated Gen.Alphabet Gen.GeneratedFacts Model.Kmer Model.Ops Model.Rows.
-From KT Require Import Proof.Oligo Proof.RowsProof.
+From KT Require Import Model.Pipeline Proof.Oligo Proof.RowsProof Proof.FileSpecProof.
 Import ListNotations.
 Open Scope N_scope.
 
@@ -29,6 +29,20 @@ Proof. exact cov_spec_sum. Qed.
 Theorem C08_absent_kmer_in_bin_zero : forall bs bc x, cov_bin bs bc (lookup x []) = 0%nat.
 Proof. intros bs bc x. unfold cov_bin. cbn [lookup]. assert (H : 0 / N.of_nat bs = 0) by (destruct (N.of_nat bs); reflexivity). rewrite H. rewrite N.min_0_l. reflexivity. Qed.
 
+(* file level: the vectors file of the model (counting table from the counting input, batch loop with any flush
+   limit) is exactly one specified row per record of the input, in input order; the thread count, the memory
+   setting and the chunking of the counter do not occur (C07_counts_table_exact gives the table) *)
+Theorem C08_vectors_file_is_one_spec_row_per_record :
+  forall k bs bc norm delim mem recs alt, (1 <= k <= 31)%nat -> (1 <= bc)%nat ->
+  Forall (Forall (fun b => 4 <= b < 256)) recs -> Forall (Forall (fun b => 4 <= b < 256)) alt ->
+  m_cov k bs bc norm delim mem recs alt = concat (map (cov_row_bytes_spec k bs bc norm delim (count_table_spec k alt)) recs).
+Proof.
+  intros k bs bc norm delim mem recs alt Hk Hbc Hr Ha.
+  assert (D : forall l, Forall (Forall (fun b => 4 <= b < 256)) l -> decodes nt4k l).
+  { intros l. apply Forall_impl. intros s. apply bytes_decode. }
+  exact (cov_model_spec k bs bc norm delim mem recs alt Hk Hbc (D recs Hr) (D alt Ha)).
+Qed.
+
 Example C08_example : cov_counts 3 2 4 [(0, 5); (2, 1)] [65;65;65;78;71;65;71;65] = [2; 0; 1; 0]%nat.
 Proof. vm_compute. reflexivity. Qed.
 
@@ -36,3 +50,4 @@ Print Assumptions C08_row_bins_windows_by_multiplicity.
 Print Assumptions C08_row_has_bin_count_entries.
 Print Assumptions C08_every_window_in_exactly_one_bin.
 Print Assumptions C08_absent_kmer_in_bin_zero.
+Print Assumptions C08_vectors_file_is_one_spec_row_per_record.
